@@ -236,6 +236,10 @@ func genSpec(b bias, nNodes int, allowMsgAct bool) *mach.ASpec {
 	if p(0.33) {
 		a.AEN = pickS([]string{"n1", "n0", "error", "ghost"})
 	}
+	if p(0.12) {
+		// the spec names its error node: another of its nodes, or one that Compile adds
+		a.EN = pickS([]string{"n1", "failed", "n2"})
+	}
 	return a
 }
 
@@ -524,7 +528,7 @@ func doWalk(spec *core.Spec, a *mach.ASpec, st *core.State, ms []interface{}, ct
 	if len(props) > 0 {
 		wprops = props[0]
 	}
-	out := O{"outcome": "returned", "strides": T{}, "remaining": T{}, "stopped": "", "bpid": "", "cls": "", "errtext": "", "walked": false, "finalq": false}
+	out := O{"outcome": "returned", "strides": T{}, "remaining": T{}, "stopped": "", "bpid": "", "cls": "", "errtext": "", "walked": false, "finalq": false, "werr": ""}
 	var w *core.Walked
 	var err error
 	ctx, cancel := ctxFor(a)
@@ -550,6 +554,7 @@ func doWalk(spec *core.Spec, a *mach.ASpec, st *core.State, ms []interface{}, ct
 		w.DoEmitted(func(x interface{}) error { em = append(em, enc.V(x)); return nil })
 		out["doEmitted"] = em
 		out["walkedTo"] = mach.EncState(w.To())
+		out["werr"] = mach.Classify(w.Error)
 		// the final state holds a value that would act as a variable when used as a pattern (outside the rule's quantifier)
 		if to := w.To(); to != nil {
 			out["finalq"] = qvals(to.Bs)
